@@ -694,7 +694,7 @@ class RecordContextMatcher:
 
                 """
                 for gen in node.generators:
-                    if gen.target.id in self.data:
+                    if gen.target.id in self.data or gen.target.id in WHITELIST_TREE:
                         raise InvalidOperation(
                             "Generator variable '{}' overwrites existing variable!".format(gen.target.id)
                         )
